@@ -589,4 +589,10 @@ inline std::string read_file(const std::string &path) {
     return s;
 }
 
+// defined in vh_fold.cc
+stim::Circuit fold_loop_circuit(Rng &rng, Stats &st);
+
+// defined in vh_fold.cc: loop-heavy circuits (periodic after a transient, feedback across the loop boundary)
+stim::Circuit fold_loop_circuit(Rng &rng, Stats &st);
+
 }  // namespace vh
